@@ -1,6 +1,56 @@
 (* C12 — infrastructure errors are retried, then contained per object, never fatal.
    Only statements here; proofs in Proofs/Retry.v, Proofs/Vault.v, Proofs/Throttle.v.
-   Name clashes between the three models are resolved by qualification (Retry.x, Vault.x, Throttle.x). *)
+   Name clashes between the three models are resolved by qualification (Retry.x, Vault.x, Throttle.x).
+
+   CLAUSE AUDIT (statement and quantifier of properties.jsonl C12)
+   ---------------------------------------------------------------------------------------------------
+   clause                                              | stated by
+   ---------------------------------------------------------------------------------------------------
+   1 transient failures (network errors, 5xx, 403,     | full: C12_transient_retried (retried set = exactly that
+     429) are retried per the configured backoff list  |   list), C12_retry_schedule, C12_retry_attempts(_bounded),
+                                                       |   C12_retry_config (scalar / list / () / endless),
+                                                       |   C12_wait_ge_backoff, C12_wait_exact_backoff,
+                                                       |   C12_wait_with_retry_after, C12_attempt_times.
+                                                       |   (an SSL-closed ClientOSError is a network error that the
+                                                       |   code sends to re-authentication, not to the backoffs:
+                                                       |   FSsl is KReauth in the model — by the code's design)
+   2 never waiting less than a server-requested        | full: C12_retry_after (every retried status, header or
+     Retry-After                                       |   details, enforce on/off; F1201 fixed by kopf 69e02a7)
+   3 ... and then escalate                             | full: C12_retry_exhaustion, C12_retry_schedule (ending)
+   4 other 4xx escalate at once                        | full: C12_plain_4xx_at_once
+   5 a 401 triggers a single re-authentication         | full: C12_unauthorized_at_once, C12_single_reauth (bound by
+                                                       |   DISTINCT invalidated identities), C12_reauth_started,
+                                                       |   C12_authenticated_call (request + @authenticated composed)
+   6 after which all blocked requests proceed with     | full for a login that yields usable credentials:
+     fresh credentials                                 |   C12_report_waits, C12_blocked_progress,
+                                                       |   C12_all_blocked_resume, C12_resume_fresh,
+                                                       |   C12_reauth_restarts_cycle;
+                                                       |   refuted after a barren login:
+                                                       |   C12_recovery_after_barren_login_refuted (finding F1203)
+   7 invalidated credentials are not reused            | identity level full: C12_resume_fresh; value level:
+                                                       |   C12_no_reuse_of_invalid_partial (history of 3 per key) +
+                                                       |   C12_no_reuse_of_invalid_refuted (finding F1202)
+   8 an escalated/unexpected error pauses the object   | full: C12_throttle_sequence(_endless), C12_throttle_sequence_proc,
+     for the configured error delays, growing per      |   C12_throttle_skip, C12_pause_respected, C12_pause_in_time
+     consecutive error, reset by a success             |
+   9 pauses ONLY that object / does not delay others   | full at the level of process_resource_event's throttling:
+                                                       |   C12_noninterference (any interleaving, any number of
+                                                       |   objects), C12_contained_sequence, C12_containment (1 step).
+                                                       |   Scheduling of the workers themselves (queueing) is C01's.
+  10 does not stop the operator                        | full at the same level: C12_proc_never_fatal (every cycle,
+                                                       |   every history; no side condition), C12_never_fatal.
+                                                       |   CancelledError/BaseException escalate by design (BEsc).
+  11 processing recovers once errors stop              | C12_recovers, C12_pause_respected (runs as soon as the pause
+                                                       |   is over); credentials side: see clause 6 / F1203
+   quantifier: fault sequences                         | all theorems quantify over every list of faults (any length)
+   quantifier: backoff / error-delay configurations    | backoffs: BScalar / BList (incl. []) / BEndless; error delays:
+                                                       |   dl_list (incl. []) / dl_fun.  One-shot iterators are outside
+                                                       |   the quantifier ("re-iterable") and not modelled
+   quantifier: number of concurrent requests on a 401  | the Vault theorems hold for every trace, i.e. any number of
+                                                       |   requesters and any interleaving of their critical sections
+   not covered: credentials expiry (_expire); Retry-After outside integer seconds (int(float(x)) truncates,
+   HTTP-date raises ValueError); aiohttp/SSL internals; the `errors=` narrowing of throttled (default used).
+   --------------------------------------------------------------------------------------------------- *)
 From Coq Require Import ZArith List Bool Arith.
 From KV Require Import Model.Retry Model.Vault Model.Throttle Proofs.Retry Proofs.Vault Proofs.Throttle.
 Import ListNotations.
@@ -36,6 +86,28 @@ Theorem C12_retry_attempts_bounded : forall enforce l fs,
   (attempts (Retry.request enforce (src_list l) O fs) <= S (length l))%nat.
 Proof. exact attempts_bounded. Qed.
 Print Assumptions C12_retry_attempts_bounded.
+
+(* the retried failures are EXACTLY the property's list (network errors, 5xx, 403, 429), and each of them
+   with a backoff left is followed by another attempt after adjust(backoff, Retry-After) *)
+Theorem C12_transient_retried :
+  (forall f, retryable f <-> transient f = true) /\
+  (forall enforce src i f fs b, transient f = true -> src i = Some b ->
+     exists ra ws o rest, classify f = KRetry ra /\
+       Retry.request enforce src (S i) fs = (ws, o, rest) /\
+       Retry.request enforce src i (f :: fs) = (adjust enforce b ra :: ws, o, rest)).
+Proof. exact (conj retryable_iff_transient transient_is_retried). Qed.
+Print Assumptions C12_transient_retried.
+
+(* the configuration value as the operator writes it: a bare number = one retry, a list = |list| retries,
+   an endless source = as many as there are faults *)
+Theorem C12_retry_config : forall enforce c fs,
+  match c with
+  | BScalar _ => (attempts (Retry.request enforce (src_of c) O fs) <= 2)%nat
+  | BList l => (attempts (Retry.request enforce (src_of c) O fs) <= S (length l))%nat
+  | BEndless _ => (attempts (Retry.request enforce (src_of c) O fs) <= S (length fs))%nat
+  end.
+Proof. exact attempts_cfg_bounded. Qed.
+Print Assumptions C12_retry_config.
 
 (* ... success if the faults stop first, otherwise the error of attempt |backoffs| escalates *)
 Theorem C12_retry_exhaustion : forall enforce l fs,
@@ -105,6 +177,29 @@ Theorem C12_attempt_times : forall ws t,
 Proof. exact attempt_times. Qed.
 Print Assumptions C12_attempt_times.
 
+(* ============================ @authenticated around request ============================ *)
+
+(* With a vault that is re-populated after every invalidation, an authentication failure (401, closed
+   session) never reaches the caller; there are at most as many re-authentications as such faults; the
+   first attempt is immediate. *)
+Theorem C12_authenticated_call : forall fuel enforce src lat t fs,
+  (length fs < fuel)%nat ->
+  (forall f, call_outcome (call fuel enforce src lat t fs) <> OReauth f) /\
+  (call_reauths (call fuel enforce src lat t fs) <= length (filter is_reauth fs))%nat /\
+  hd t (call_times (call fuel enforce src lat t fs)) = t.
+Proof. exact call_spec. Qed.
+Print Assumptions C12_authenticated_call.
+
+(* after the re-authentication the request proceeds with a FULL fresh cycle: backoffs restart from index 0 *)
+Theorem C12_reauth_restarts_cycle : forall fuel enforce src lat t fs ws f rest,
+  Retry.request enforce src O fs = (ws, OReauth f, rest) ->
+  call (S fuel) enforce src lat t fs =
+    (times t ws ++ call_times (call fuel enforce src lat (last (times t ws) t + Z.max 0 lat) rest),
+     call_outcome (call fuel enforce src lat (last (times t ws) t + Z.max 0 lat) rest),
+     S (call_reauths (call fuel enforce src lat (last (times t ws) t + Z.max 0 lat) rest))).
+Proof. exact reauth_restarts_cycle. Qed.
+Print Assumptions C12_reauth_restarts_cycle.
+
 (* ============================ Vault: re-authentication ============================ *)
 
 (* On every trace of the vault (any number of requesters, any interleaving): the number of
@@ -153,6 +248,26 @@ Theorem C12_blocked_progress : forall s r,
      (forall o s', Vault.step s (Wake r o) = Some s' -> o = WResumed)).
 Proof. exact blocked_progress. Qed.
 Print Assumptions C12_blocked_progress.
+
+(* whenever the vault is not ready the authenticator can move: start the login, or deliver its result *)
+Theorem C12_reauth_started : forall s,
+  ready s = false ->
+  (busy s = false -> exists s', Vault.step s WakeEmpty = Some s' /\ busy s' = true /\ wakes s' = S (wakes s)) /\
+  (busy s = true -> forall src, exists s', Vault.step s (Populate src) = Some s' /\ ready s' = true /\ busy s' = false).
+Proof. exact reauth_enabled. Qed.
+Print Assumptions C12_reauth_started.
+
+(* a login that yields at least one set of credentials not remembered as invalid releases EVERY blocked
+   requester: each is still there, can resume, can only resume (no LoginError), with the fresh items present *)
+Theorem C12_all_blocked_resume : forall s src s',
+  Vault.step s (Populate src) = Some s' -> fertile src (inv s) ->
+  ready s' = true /\ cur s' <> [] /\
+  forall r, rget r s = RBlocked ->
+    rget r s' = RBlocked /\
+    (exists s'', Vault.step s' (Wake r WResumed) = Some s'' /\ rget r s'' = RIdle /\ cur s'' = cur s' /\ ready s'' = true) /\
+    (forall o s'', Vault.step s' (Wake r o) = Some s'' -> o = WResumed).
+Proof. exact all_blocked_resume. Qed.
+Print Assumptions C12_all_blocked_resume.
 
 (* "invalidated credentials are not reused": true within the remembered history (3 per key) ... *)
 Theorem C12_no_reuse_of_invalid_partial : forall src tr s k it,
@@ -236,6 +351,38 @@ Theorem C12_containment : forall dl w u nowu eu v nowv ev,
 Proof. exact containment_full. Qed.
 Print Assumptions C12_containment.
 
+(* ---- process_resource_event: `async with throttled as should_run: if should_run: ...` ---- *)
+
+(* never fatal, without side condition: no processing cycle lets an Exception out, in any state, at any
+   time, for any delay source and wake-up pattern; hence none in any history of any number of objects *)
+Theorem C12_proc_never_fatal : forall dl,
+  (forall st now e, e_body e <> BEsc -> r_escalated (proc_event dl st now e) = false) /\
+  (forall evs w, Forall (fun x => e_body (snd x) <> BEsc) evs ->
+                 Forall (fun ur => r_escalated (snd ur) = false) (wrun dl w evs)).
+Proof. exact never_fatal_all. Qed.
+Print Assumptions C12_proc_never_fatal.
+
+(* non-interference: in ANY interleaving of processing cycles of any objects, what object v goes through
+   (whether and when it runs, its pauses, its throttler) is exactly what it goes through alone *)
+Theorem C12_noninterference : forall dl evs w v,
+  of_object v (wrun dl w evs) = run_proc dl (w v) (events_of v evs).
+Proof. exact wrun_noninterference. Qed.
+Print Assumptions C12_noninterference.
+
+(* the delay law for the cycles of process_resource_event, alone ... *)
+Theorem C12_throttle_sequence_proc : forall l es st c,
+  TInv l st c -> Forall (step_ok (expected l)) (proc_counts (dl_list l) st c es).
+Proof. exact throttle_sequence_proc. Qed.
+Print Assumptions C12_throttle_sequence_proc.
+
+(* ... and inside any interleaving with other (erroring) objects *)
+Theorem C12_contained_sequence : forall l evs w v c,
+  TInv l (w v) c ->
+  of_object v (wrun (dl_list l) w evs) = map snd (proc_counts (dl_list l) (w v) c (events_of v evs)) /\
+  Forall (step_ok (expected l)) (proc_counts (dl_list l) (w v) c (events_of v evs)).
+Proof. exact contained_sequence. Qed.
+Print Assumptions C12_contained_sequence.
+
 (* recovery: after a clean run the next run is immediate and a new error starts from delays[0] *)
 Theorem C12_recovers : forall l st now e now' e',
   e_body e = BOk -> r_should (episode (dl_list l) st now e) = true ->
@@ -264,3 +411,56 @@ Example C12_nonvacuous_vault :
   | None => (0%nat, [], [], false)
   end = (1%nat, [0%nat], [(0%nat, 1%nat)], true).
 Proof. exact burst_example. Qed.
+
+(* hypotheses of the per-wait theorems (j < number of waits, requested = Some / None) on a concrete script *)
+Example C12_nonvacuous_waits :
+  let fs := [FStatus 504 None (Some 9); FStatus 403 (Some 1) None; FTimeout; FStatus 404 None None] in
+  waits_of (Retry.request true (src_of (BList [2; 5; 3])) O fs) = [9; 1; 3] /\
+  requested (nthf 0 fs) = Some 9 /\ requested (nthf 2 fs) = None /\
+  outcome_of (Retry.request true (src_of (BList [2; 5; 3])) O fs) = OEscalate (FStatus 404 None None).
+Proof. exact waits_example. Qed.
+
+Example C12_nonvacuous_plain_4xx : plain_4xx 404 /\ plain_4xx 422 /\ ~ plain_4xx 429.
+Proof. exact plain_4xx_example. Qed.
+
+Example C12_nonvacuous_transient : transient (FStatus 503 (Some 7) None) = true /\ src_of (BScalar 4) O = Some 4.
+Proof. exact transient_example. Qed.
+
+(* request + @authenticated: 500, then 401 (re-auth takes 3 s), then 503 with Retry-After 7 *)
+Example C12_nonvacuous_call :
+  call 5 false (src_list [1; 2]) 3 0 [FStatus 500 None None; FStatus 401 None None; FStatus 503 (Some 7) None]
+  = ([0; 1; 4; 11], ODone, 1%nat).
+Proof. exact call_example. Qed.
+
+(* two requesters blocked on the same invalidated item while the login runs; a fertile Populate is enabled *)
+Example C12_nonvacuous_blocked :
+  exists s, Vault.run (init [(0%nat, 10, 0)]) blocked_trace = Some s /\
+    rget 1 s = RBlocked /\ rget 2 s = RBlocked /\ ready s = false /\ busy s = true /\
+    fertile [(0%nat, 11, 0)] (inv s) /\
+    exists s', Vault.step s (Populate [(0%nat, 11, 0)]) = Some s'.
+Proof. exact blocked_example. Qed.
+
+(* a reachable state with a current item: the fresh one can be selected, the invalidated one cannot *)
+Example C12_nonvacuous_current :
+  exists s it s', Vault.run (init [(0%nat, 10, 0)]) reuse_trace1 = Some s /\ lookupn 0 (cur s) = Some it /\
+    Vault.step s (Select 1 0 1) = Some s' /\ Vault.step s (Select 1 0 0) = None.
+Proof. exact current_example. Qed.
+
+(* a paused object: `until` set, one error counted; it runs when the pause is slept out, is skipped when woken *)
+Example C12_nonvacuous_paused :
+  let r := episode (dl_list [2; 4; 6]) t0 0 ex_err_woken in
+  until (r_state r) = Some 2 /\ TInv [2; 4; 6] (r_state r) 1 /\ r_should r = true /\ r_pause r = Some 2 /\
+  r_should (episode (dl_list [2; 4; 6]) (r_state r) 1 (with_body ex_err_woken BOk)) = true /\
+  r_should (episode (dl_list [2; 4; 6]) (r_state r) 1
+              {| e_ev := false; e_wk1 := Some 0; e_body := BOk; e_dur := 0; e_evb := false; e_wk2 := None |}) = false.
+Proof. exact paused_example. Qed.
+
+Example C12_nonvacuous_endless : FInv (fun i => 2 + Z.of_nat i) (r_state (episode (dl_fun (fun i => 2 + Z.of_nat i)) t0 0 ex_err)) 1.
+Proof. exact finv_example. Qed.
+
+(* two objects interleaved: object 0 errs twice (pauses 2, 4), object 1 runs at its own times, nothing escalates *)
+Example C12_nonvacuous_world :
+  map (fun ur => (fst ur, r_should (snd ur), r_start (snd ur), r_pause (snd ur), r_escalated (snd ur)))
+      (wrun (dl_list [2; 4; 6]) w0 [(0%nat, 0, ex_err_woken); (1%nat, 1, ex_ok); (0%nat, 1, ex_err); (1%nat, 3, ex_ok)])
+  = [(0%nat, true, 0, Some 2, false); (1%nat, true, 1, None, false); (0%nat, true, 2, Some 4, false); (1%nat, true, 3, None, false)].
+Proof. exact wrun_example. Qed.
